@@ -331,7 +331,7 @@ def run(ctx):
     if tier == "thorough":
         cfg = tlc.make_cfg(constants=dict(MaxLen=4, MaxVal=3, MaxM=4, RepairedFloor=True), subst={"Thresholds": "ThrFine"}, spec="Spec",
                            invariants=["AtLeastOne", "NeverMoreThanAvailable", "WithinLimit", "BondIsTheCutBond", "BothIsMin", "PrefixRule"])
-        r2 = tlc.run("Truncation", cfg, vacuity=True, timeout=3000)
+        r2 = tlc.run("Truncation", cfg, timeout=3000)      # pure enumeration (Next == FALSE): no action coverage to demand
         ctx.add_tlc(r2, "Truncation len<=4, 7 thresholds, limits<=4")
     # ---- B
     n = 32
